@@ -223,6 +223,14 @@ def run(c, chk):
     c04.run(c, sub)
     sub.done('value conversion')
 
+    # ---- R5.10: the printed text is read from the scanner's initial state
+    if not isinstance(chk, report.SubCheck):
+        from . import c08 as _c08x
+        chk.rule('R5.10', 'every scan begins in the initial start condition (rule R8.1 of C08): the printed text is not read as the continuation of an earlier comment or string')
+        sub8 = report.SubCheck(chk, 'R5.10', 'C08', only=('R8.1',))
+        _c08x.run(c, sub8)
+        sub8.done('scanner start state')
+
     # ---- R5.9: a section header carries a title exactly when the reader demands one ----------------------
     section_headers(c, chk, ex2)
 
